@@ -62,7 +62,7 @@ TopVerdict(ax, steps, s2, cand, rank) ==
 PairsAbove(pr, t, x) == Cardinality({<<a, b>> \in (DOMAIN pr) \X (DOMAIN pr[1]) : pr[a][b] > pr[t][x]})
 TopPairs(pr, k) == {<<a, b>> \in (DOMAIN pr) \X (DOMAIN pr[1]) : PairsAbove(pr, a, b) < k}
 PairTopVerdict(axT, axX, steps, t2, x2, candT, candX, pr) ==
-    LET winT == Window(axT, steps)  winX == Window(axX, steps)
+    LET winT == Window(axT, steps) \cap DOMAIN t2  winX == Window(axX, steps) \cap DOMAIN x2
         topT == TopPairs(pr, axT.sel)  topX == TopPairs(pr, axX.sel) IN
     IF \E v \in {candT[p[1]] : p \in topT} \cup {t2[k] : k \in winT} :
            Cardinality({k \in winT : t2[k] = v}) # Cardinality({p \in topT : candT[p[1]] = v})
